@@ -54,19 +54,27 @@ def session_id(i, s):
 
 
 # ---------------------------------------------------------------------------------- real objects
-def build_network(net):
+def _num(x, ints):
+    """x (in spec units) as the number a user would write: a Python int where it is whole and `ints` is on."""
+    v = x / U
+    return int(round(v)) if ints and float(v).is_integer() else v
+
+
+def build_network(net, ints=False):
+    """ints: whole-valued rates, levels and limits are written as Python ints (32 instead of 32.0) - the values are
+    the same, so the specification's answer is."""
     from acnportal.acnsim import ChargingNetwork, Current
     from acnportal.acnsim.models import EVSE, FiniteRatesEVSE
     n = ChargingNetwork()
     for i, st in enumerate(net["st"]):
         if st["kind"] == "fin":
-            evse = FiniteRatesEVSE(station_id(i), [l / U for l in st["lv"]])
+            evse = FiniteRatesEVSE(station_id(i), [_num(l, ints) for l in st["lv"]])
         else:
-            evse = EVSE(station_id(i), max_rate=st["max"] / U, min_rate=0)
+            evse = EVSE(station_id(i), max_rate=_num(st["max"], ints), min_rate=0)
         n.register_evse(evse, st["volt"], st["ang"])
     for k, c in enumerate(net["con"]):
         n.add_constraint(Current({station_id(i): cf for i, cf in enumerate(c["coef"]) if cf != 0}),
-                         c["lim"] / U, "con-%d" % k)
+                         _num(c["lim"], ints), "con-%d" % k)
     return n
 
 
@@ -103,7 +111,7 @@ def build_case(case):
     net, ses, opt = case["net"], case["ses"], case["opt"]
     bounds = {session_id(i, s): s["est"] / U for i, s in enumerate(ses) if s["on"] and s["est"] >= 0}
     algo = make_algorithm(opt, bounds)
-    network = build_network(net)
+    network = build_network(net, ints=int(jhash({"ints": case_id(case)})[:4], 16) % 2 == 0)
     sim = Simulator(network, algo, EventQueue(), datetime(2020, 1, 1), period=net["T"], verbose=False)
     sim._iteration = opt["now"]  # the only private access: the invocation happens in period `now`
     for i, s in enumerate(ses):
@@ -773,6 +781,8 @@ def _lattice(rep, prop, q, par):
         gens = [{"Infras": "<- Infras%sQ" % tag, "Profiles": "<- Prof%sQ" % tag, "Opts": "<- Opts%sQ%d" % (tag, k)} for k in (1, 2)]
         # two sessions with the same departure (they may share bound arrays when the caller builds them)
         gens.append({"Infras": "<- InfrasShare", "Profiles": "<- ProfShare", "Opts": "<- OptsShare"})
+        if prop == "C08":   # thousands of round-robin steps per case (increment 0.02 A)
+            gens.append({"Infras": "<- InfrasRR002", "Profiles": "<- ProfRR002", "Opts": "<- OptsRR002"})
     else:
         mcs = [({"Infras": "<- Infras%sT" % tag, "Profiles": "<- Prof%sT" % tag, "Opts": "<- Opts%sT" % tag}, "three-station infrastructures"),
                ({"Infras": "<- Infras%sN" % tag, "Profiles": "<- Prof%sN" % tag, "Opts": "<- Opts%sT" % tag}, "four-station infrastructures")]
@@ -780,6 +790,7 @@ def _lattice(rep, prop, q, par):
         gens = [{"Infras": "<- " + i, "Profiles": "<- Prof%s%s" % (tag, "N" if "N" in i[6:] else "T"), "Opts": "<- Opts%sT%s" % (tag, f)}
                 for i in infs for f in "abcd"]
         gens.append({"Infras": "<- InfrasRR01", "Profiles": "<- ProfRR01", "Opts": "<- OptsRR01"})
+        gens.append({"Infras": "<- InfrasRR002", "Profiles": "<- ProfRR002", "Opts": "<- OptsRR002"})
     what = {"C07": "exhaustive model checking of OutputFeasible, LevelsAllowed, WithinDemand, WithinEstimatorOrMin, ZeroForInactive, "
                    "NeverValueError in every state of every scheduler run",
             "C08": "exhaustive model checking of QueueSorted, ServedInOrder, GreedyMaximal (independent definition), "
